@@ -209,6 +209,35 @@ func goroutineID() string {
 	return ""
 }
 
+// answeredAfterSeen: did the room send an answer to the call (self-presence
+// or unavailable presence for its occupant, or an error for its id) after it
+// had seen the call's request?
+func (d *driver) answeredAfterSeen(cl *call) bool {
+	var tSeen int64
+	rq, ok := d.w.requestSeen(cl.reqID, 0)
+	if !ok {
+		return false
+	}
+	for _, e := range d.w.log.snapshot() {
+		switch {
+		case e.Ev == "seen" && e.ID == cl.reqID:
+			tSeen = e.T
+		case e.Ev == "presence" && tSeen != 0 && e.T > tSeen:
+			if e.Typ == "error" && e.ID == cl.reqID {
+				return true
+			}
+			want := "available"
+			if cl.op == "leave" {
+				want = "unavailable"
+			}
+			if e.Self && e.Typ == want && (e.Addr == cl.addr || e.Addr == rq.Addr) {
+				return true
+			}
+		}
+	}
+	return false
+}
+
 // parkedCall returns the stack of cl's goroutine if it is parked in the
 // library's Join/Leave wait (three samples when confirm is set).
 func (d *driver) parkedCall(cl *call, confirm bool) *stall.Parked {
@@ -229,8 +258,8 @@ func (d *driver) parkedCall(cl *call, confirm bool) *stall.Parked {
 
 // finish books a returned call.
 func (d *driver) finish(cl *call) {
-	if cl.n == 0 {
-		return
+	if cl.n <= 0 {
+		return // a dummy, or booked already
 	}
 	d.pending[cl.addr]--
 	if cl.op == "join" && cl.ch != nil {
@@ -272,6 +301,21 @@ func (d *driver) await(st step) {
 		d.finish(cl)
 		return
 	default:
+	}
+	if pk := d.parkedCall(cl, true); pk != nil && st.Must && !d.answeredAfterSeen(cl) {
+		// The script's claim does not hold for this run: the library sent the
+		// request late (or not at all: an abandoned earlier join can occupy the
+		// channel's slot) and the room's answer went out before it.  Nothing is
+		// owed to the call; it is let go.
+		d.c.Count("awaited_calls_whose_answer_preceded_the_request", 1)
+		d.w.log.add(event{Ev: "cancel", Ctx: cl.ctxN})
+		cl.cancel()
+		select {
+		case <-cl.done:
+		case <-time.After(hardLimit):
+		}
+		d.finish(cl)
+		return
 	}
 	if pk := d.parkedCall(cl, true); pk != nil && st.Must {
 		what := "the room's answer was sent after it had seen the request and has been processed by the serve loop"
